@@ -37,6 +37,11 @@ def run(ctx):
     mprogs = [p for p in F.c09_family(ctx.tier, rnd) if p["fam"].startswith(("C09:P2", "C09:P7"))]
     agg = run_family("C05macros", mprogs, ["x", "y", "g", "macroname", "error"], dev=dev, invariants=INVS, perms=(0,), timeout=900)
     ctx.add_family(agg)
+    # names bound inside an expression (lambda parameters, comprehension variables) are local to it: the template's
+    # variables of the same names read the same before and after
+    wprogs = [p for p in F.c04_family(ctx.tier, rnd) if p["fam"].startswith("C04:wrap")]
+    agg = run_family("C05wraps", wprogs, ["x", "y", "len", "nope", "error"], dev=dev, invariants=INVS, perms=(0,), timeout=900)
+    ctx.add_family(agg)
     for f in ctx.known():
         ctx.witness(f)
     scope_check.run(ctx, rnd)
